@@ -30,7 +30,7 @@ var (
 
 // symbolic-mode replacements for the archive readers (see props/C27.json)
 func c27Gzip(r io.Reader) (*gzip.Reader, error) { return new(gzip.Reader), nil }
-func c27GzClose(z *gzip.Reader) error            { return nil }
+func c27GzClose(z *gzip.Reader) error           { return nil }
 func c27Next(tr *tar.Reader) (*tar.Header, error) {
 	if c27Pos >= len(c27Entries) {
 		return nil, io.EOF
